@@ -130,7 +130,9 @@ fn check_winsorize(c: &WCase, obs: &mut Obs) -> CheckResult {
                     let (lo, hi) = (mean - p * sd, mean + p * sd);
                     // the library's one-pass variance: relative error ~ n u maxabs^2 / m2
                     let rel = 64.0 * U * n as f64 * (1.0 + maxabs * maxabs / m2);
-                    Some((lo, hi, rel * (mean.abs() + p * sd) + 1e-300))
+                    // ... and the mean itself: its rounding error is relative to the data, not to the
+                    // (possibly cancelling) mean
+                    Some((lo, hi, rel * (mean.abs() + p * sd) + 64.0 * U * n as f64 * maxabs + 1e-300))
                 }
             },
         }
